@@ -100,7 +100,7 @@ let model = function
         let arg = String.sub s 2 (String.length s - 2) in
         match s.[0] with
         | 'e' -> e := parse_env arg
-        | 'd' | 'M' -> d := parse_decl arg; st := init_st !d
+        | 'd' | 'M' | 'u' -> d := parse_decl arg; st := init_st !d
         | 'a' -> let (st', r) = parse !d !e !st (strs_of_wire arg) in
                  st := st';
                  outs := (obs_res r ^ " # " ^ obs_res (snd (parse !d !e (init_st !d) (strs_of_wire arg)))) :: !outs
@@ -161,7 +161,7 @@ let oracle case obs =
         let arg = String.sub s 2 (String.length s - 2) in
         match s.[0] with
         | 'e' -> e := parse_env arg; true
-        | 'd' | 'M' -> d := parse_decl arg; true
+        | 'd' | 'M' | 'u' -> d := parse_decl arg; true
         | 'a' -> (match !obss with
                   | [] -> false
                   | o :: rest ->
